@@ -339,8 +339,11 @@ class ExprMixin(ExecBase):
                 return [(st, V(PYOBJ, PyThing("classattr", owner=th, name=attr)))]
             if th.kind == "selfcls":
                 cm_mod = self.module
+                if getattr(th, "module", None) and th.module != self.module.dotted:
+                    from . import source as _src
+                    cm_mod = _src.module(th.module)          # `cls` of a callee defined in another module
                 if th.name in cm_mod.enums:
-                    ety = self.enum_ty(th.name)
+                    ety = self.enum_ty(th.name, cm_mod)
                     if attr in ety.members:
                         return [(st, ety.member(attr))]
                 cac = cm_mod.class_attr_consts(th.name)
